@@ -577,6 +577,14 @@ impl Stream {
             let pending_entries = group.add_pending(consumer_name, entries.clone());
             Ok(pending_entries)
         } else {
+            // NOACK: nothing becomes pending, but a ">" read still consumes the entries
+            if after_id == StreamId::max() {
+                if let Some(last_entry) = entries.last() {
+                    if last_entry.id > group.get_last_id() {
+                        group.set_id(last_entry.id);
+                    }
+                }
+            }
             Ok(entries)
         }
     }
